@@ -6,6 +6,7 @@ imported.  A vanished anchor raises AnalysisError (exit 2), never a silent pass.
 from __future__ import annotations
 
 import ast
+import re
 import collections
 import pathlib
 import warnings
@@ -803,7 +804,15 @@ def attr_chain(e: ast.AST) -> Optional[List[str]]:
     return None
 
 
+_INLINE_SUFFIX = re.compile(r"__(?:i|c)\d+\b")
+
+
 def unparse(n: ast.AST, limit: int = 100) -> str:
+    """source text for messages; the suffixes that inlining gives to helper locals are removed"""
+    return _INLINE_SUFFIX.sub("", _unparse(n, limit))
+
+
+def _unparse(n: ast.AST, limit: int = 100) -> str:
     s = " ".join(ast.unparse(n).split())
     return s if len(s) <= limit else s[: limit - 3] + "..."
 
